@@ -617,6 +617,15 @@ class Interp:
                 obj.pyvc_setattr(target.attr, value, self, st)
             else:
                 raise PyvcUnsupported(f"attribute assignment on {type(obj).__name__} (line {target.lineno})")
+        elif isinstance(target, ast.Subscript) and isinstance(target.slice, ast.Slice):
+            obj = self.ev(target.value, st)
+            lo = self.ev(target.slice.lower, st) if target.slice.lower else None
+            hi = self.ev(target.slice.upper, st) if target.slice.upper else None
+            step = self.ev(target.slice.step, st) if target.slice.step else None
+            if hasattr(obj, "pyvc_setslice"):
+                obj.pyvc_setslice(lo, hi, step, value, self, st)
+            else:
+                raise PyvcUnsupported(f"slice assignment on {type(obj).__name__} (line {target.lineno})")
         elif isinstance(target, ast.Subscript):
             obj = self.ev(target.value, st)
             idx = self.ev(target.slice, st)
